@@ -34,7 +34,8 @@ JobOK(j, pj) ==
 PostCount(p)   == count' = p.count
 PostJobs(p)    == Len(p.jobs) = count' /\ \A s \in 1..count' : JobOK(job'[s], p.jobs[s])
 PostBound(p)   == \A i \in JobIds : id2job'[i] = (IF i \in DOMAIN p.bound THEN p.bound[i] ELSE 0)
-PostHeaps(p)   == \A c \in Channels : heap'[c] = SeqRange(p.heaps[c])
+\* the unfinished jobs queued per channel (finished ones lingering until preened are not compared)
+PostHeaps(p)   == \A c \in Channels : {s \in heap'[c] : ~job'[s].done} = SeqRange(p.heaps[c])
 PostWaiters(p) == \A w \in Workers :
                     /\ waiter'[w].on = p.waiters[w].on
                     /\ waiter'[w].box = p.waiters[w].box
